@@ -6,12 +6,14 @@ sweeps of every built-in (positional and named) over an extreme alphabet, operat
 DST gaps/folds and extreme offsets/years/durations, nesting ramps, parser entry points x parsing scopes.
 Every case runs on both driver builds (release: overflow checks off; checked: overflow checks + debug assertions)."""
 import hashlib
+import json
 import os
 import re
 import sys
 import threading
+import time
 
-from ..engine import Part, Fail, Inconclusive, Driver, main
+from ..engine import Part, Fail, Inconclusive, Driver, DriverDied, DriverTimeout, main
 from ..oracles import c05_dict, c05_harvest
 
 PROP = "C05"
@@ -49,11 +51,84 @@ def location(loc):
     return loc
 
 
-def _alone(ctx, prof, req, timeout):
-    d = Driver(prof, timeout=timeout)
+_LINES = {}
+
+
+def source_line(loc):
+    """The trimmed text of the source line a panic location names (None when the file cannot be read)."""
+    m = re.match(r"^(.*):(\d+)$", loc or "")
+    if not m:
+        return None
+    path, line = m.group(1), int(m.group(2))
+    if path not in _LINES:
+        try:
+            with open(path, encoding="utf-8", errors="replace") as f:
+                _LINES[path] = f.read().split("\n")
+        except OSError:
+            _LINES[path] = None
+    lines = _LINES[path]
+    if not lines or line < 1 or line > len(lines):
+        return None
+    return lines[line - 1].strip()
+
+
+def panic_signature(ctx, loc):
+    """`C05/panic@<file:line>`.  Line numbers move whenever somebody edits the file above the statement, so an open finding may
+    carry an `anchor` (the exact text of the panicking statement): a panic in the same file at a statement with that text gets the
+    finding's recorded signature even when the line number differs, and a finding with an anchor is NOT matched by its line number
+    alone.  A panic at any other statement keeps its own file:line and is reported."""
+    rel = location(loc)
+    sig = "C05/panic@%s" % rel
+    relfile = rel.rsplit(":", 1)[0]
+    text = source_line(loc)
+    anchored = [k for k in ctx.known if k.get("status") == "open" and k.get("anchor") and k["signature"].startswith("C05/panic@" + relfile + ":")]
+    if text is not None:
+        for k in anchored:
+            if k["anchor"].strip() == text:
+                return k["signature"]
+        if any(k["signature"] == sig for k in anchored):
+            return sig + "(moved)"     # the recorded statement is no longer on this line: this is a different statement
+    return sig
+
+
+def _cpu_seconds(pid):
+    """CPU time (user + system, all threads) the process has used so far."""
+    try:
+        with open("/proc/%d/stat" % pid) as f:
+            rest = f.read().rsplit(")", 1)[1].split()
+        return (int(rest[11]) + int(rest[12])) / float(os.sysconf("SC_CLK_TCK"))
+    except (OSError, IndexError, ValueError):
+        return None
+
+
+def _alone(ctx, prof, req, cpu_budget):
+    """Runs one request alone in a fresh driver.  The budget is counted in CPU seconds of the driver process, so that a loaded
+    machine cannot turn a slow answer into a 'hang': {'timeout': True} only when the process has burnt cpu_budget seconds without
+    answering; {'starved': True} when the wall clock (8x the budget) ran out first."""
+    d = Driver(prof, timeout=cpu_budget)
+    t0 = time.monotonic()
     try:
         d.start()
-        return d.safe(req, timeout)
+        d.proc.stdin.write((json.dumps(req, ensure_ascii=True) + "\n").encode())
+        d.proc.stdin.flush()
+        while True:
+            try:
+                return json.loads(d._readline(0.2))
+            except DriverTimeout:
+                cpu = _cpu_seconds(d.proc.pid)
+                if cpu is not None and cpu >= cpu_budget:
+                    return {"timeout": True, "cpu_seconds": cpu}
+                if time.monotonic() - t0 > 8 * cpu_budget + 5:
+                    return {"starved": True, "cpu_seconds": cpu}
+            except DriverDied:
+                code = None
+                try:
+                    code = d.proc.wait(timeout=5)
+                except Exception:
+                    pass
+                return {"died": code}
+    except BrokenPipeError:
+        return {"died": None}
     finally:
         d.stop()
 
@@ -87,12 +162,13 @@ def confirm_hang(ctx, prof, req, budget):
     for t in th:
         t.join()
     timeouts = sum(1 for r in out if r is not None and r.get("timeout"))
+    unusable = sum(1 for r in out if r is None or r.get("starved") or r.get("infra"))
     if timeouts == 3:
         v = ("hang", None)
-    elif timeouts == 0:
+    elif timeouts == 0 and unusable == 0:
         v = ("ok", out[0])
     else:
-        v = ("mixed", None)
+        v = ("mixed", [{k: r[k] for k in r if k in ("timeout", "starved", "infra", "cpu_seconds", "died")} if isinstance(r, dict) else r for r in out])
     _CONFIRMED[key] = v
     return v
 
@@ -145,6 +221,8 @@ def verdict(ctx, case, req, resp, prof):
                 prof, resp.get("died"), r2.get("died"), req.get("entry"), show(text)), profile=prof, request=small(req)), r2
         if "timeout" in r2:
             resp = r2
+        elif "starved" in r2:
+            raise Inconclusive("driver died on %s; the confirmation run did not get enough CPU time" % show(text))
         else:
             # died in a batch but not alone: some earlier request of the batch poisoned the process -> cannot attribute
             raise Inconclusive("driver died (%s) on %s but not when the request is run alone" % (resp.get("died"), show(text)))
@@ -161,10 +239,10 @@ def verdict(ctx, case, req, resp, prof):
         else:
             kind, r2 = confirm_hang(ctx, prof, req, budget)
         if kind == "hang":
-            return Fail("C05/hang/%s" % cls, "[%s] no answer within %.0fs, and 3 more times alone within %.0fs: entry=%s text=%s" % (
+            return Fail("C05/hang/%s" % cls, "[%s] no answer within %.1f s, and 3 more times alone (fresh driver each) within %.0f s of CPU time: entry=%s text=%s" % (
                 prof, budget, 10 * budget, req.get("entry"), show(text)), profile=prof, request=small(req)), resp
         if kind == "mixed":
-            raise Inconclusive("timeout on %s could not be confirmed (answers within the 10x budget only sometimes)" % show(text))
+            raise Inconclusive("timeout on %s could not be confirmed (of three runs alone, not all used up the 10x CPU budget without an answer: %r)" % (show(text), r2))
         ctx.classes["slow(>budget, <10x budget)"] += 1
         ctx.log("slow but answering [%s]: entry=%s text=%s" % (prof, req.get("entry"), show(text, 160)))
         resp = r2
@@ -172,8 +250,7 @@ def verdict(ctx, case, req, resp, prof):
             return Fail("C05/abort/%s" % cls, "[%s] process died (exit %s) on entry=%s text=%s" % (
                 prof, resp.get("died"), req.get("entry"), show(text)), profile=prof, request=small(req)), resp
     if "panic" in resp:
-        loc = location(resp.get("location"))
-        return Fail("C05/panic@%s" % loc, "[%s] panic '%s' at %s on entry=%s text=%s scope=%s" % (
+        return Fail(panic_signature(ctx, resp.get("location")), "[%s] panic '%s' at %s on entry=%s text=%s scope=%s" % (
             prof, str(resp.get("panic"))[:200], resp.get("location"), req.get("entry"), show(text), show(small(req).get("scope"))),
             profile=prof, request=small(req)), resp
     if "error" in resp:
@@ -1198,8 +1275,8 @@ def setup(ctx):
                 "x 8 entry points x 4 scopes, iteration ranges at the integer edges, recursion. oracle: answer is (tree|error)/(value): no panic, no process death (re-run "
                 "alone), no hang (timeout re-run alone 3x with 10x budget; iteration domains > 5000 or not evident are outside the property). non-trivial: parsed and "
                 "evaluated, or rejected after the 3rd token (mutation point >= 3 tokens into a text the parser accepts); distinct by text+entry+scope")
-    ctx.assumptions = ["a request that takes longer than the per-request budget (2 s quick / 6 s thorough, > 1000x the median) and again longer than 10x that budget three "
-                       "times alone is a hang", "stack size of the evaluating thread is 8 MiB (driver main thread)",
+    ctx.assumptions = ["a request that takes longer than the per-request budget (2 s quick / 6 s thorough wall clock; 0.5 s for the iteration and nesting parts; > 1000x the "
+                       "median) and that then, alone in a fresh driver, three times burns 10x that budget of CPU time without answering, is a hang", "stack size of the evaluating thread is 8 MiB (driver main thread)",
                        "times of day in named zones depend on today's date: such cases are asserted for totality only"]
     ctx.p_harvested = mkpart(ctx, "harvested")
     ctx.p_trunc = mkpart(ctx, "truncation")
@@ -1253,8 +1330,11 @@ def run(ctx):
     if want(ctx.p_ramp) or want(ctx.p_sweep) or want(ctx.p_rsweep) or want(ctx.p_matrix):
         set_budget(ctx, RAMP_BUDGET)
         # one probe decides whether values nested 200 deep can be used as arguments everywhere (they cannot while type_of is exponential)
-        ctx.enumerate(ctx.p_ramp, [ramp_case(DEEP_PROBE, ["textual"], [[["v", nest_list(200)]]], DEEP_CLS, ["depth:200", "shape:values-type-of"])],
-                      name="type of a list nested 200 deep", batch=1)
+        # (run on every worker, not shared out like an enumeration: every worker needs the answer)
+        probe = ramp_case(DEEP_PROBE, ["textual"], [[["v", nest_list(200)]]], DEEP_CLS, ["depth:200", "shape:values-type-of"])
+        f, resp = ctx.run_case(ctx.p_ramp, probe)
+        if f is not None:
+            ctx.report(ctx.p_ramp.name, probe, f, resp)
         ctx.deep = 200 if DEEP_CLS not in _HUNG else 16
         DEEP_OK[0] = ctx.deep == 200
         ctx.extra["deep_argument_depth"] = ctx.deep
